@@ -25,7 +25,8 @@ REQUIRED_THEOREMS = [
     "extract_time_range_empty", "extractFieldPlan_cases", "sliceFrame_blocks", "sliceFrame_exhaustive",
     "extract_field_consistent", "view_field_consistent", "copy_apply_consistent", "mapFrames_applyTo",
     "inv_step", "frames_immutable", "world_refines_store", "world_run_refines", "extract_time_range_world",
-    "extract_field_world", "apply_world",
+    "extract_field_world", "apply_world", "getSlice_eq", "gatherInto_spec", "gatherInto_too_long",
+    "collInfo_cases",
 ]
 RULE = ("adaptive random operation sequences of length 5-40 over newField/setField/newStore/setMode/"
         "start_writing/append/end_writing/clear/read/items/slice/extract_time_range/extract_field/view_field/"
